@@ -83,6 +83,12 @@ def c18(res, tier, seed):
         mc_lazy(res, ["getter", "refl", "raw"], False)
     res.exhaustive = True
     replay_tour(res, b, "lazyconc", tour, key=lambda e: ["gated", e["progs"], [s["at"] + str(s["obs"]) for s in e["steps"]][-3:]])
+    # the same schedules on a message whose lazy field occurs twice, non-contiguously: lazyUnmarshal then merges several index
+    # entries into its private object; the protocol (nothing visible before the compare-and-swap, one winner) must not change
+    with open(tour + ".split", "w") as fh:
+        for e in read_ndjson(tour):
+            fh.write(json.dumps(dict(e, input="split")) + "\n")
+    replay_tour(res, b, "lazyconc", tour + ".split", key=lambda e: ["gated-split", e["progs"], [s["at"] + str(s["obs"]) for s in e["steps"]][-3:]])
     validate_free(res, b, seed, 300 if tier == "quick" else 6000)
     if tier != "quick":
         br = build_harness(("conc",), race=True)
